@@ -75,6 +75,17 @@ theorem C07_directions_disjoint (s : Nat) (ops : List Op) (i j : Nat)
   have := (isoIv_injective true false (i+1) (j+1) (by omega) (by omega) h).1
   cases this
 
+/-- every IV that any history of either role ever used is a 96-bit AES-GCM nonce whose first eight
+bytes are the ISO identifier of the sending role (ISO 18013-5 9.1.1.5) — for every history, every
+direction and every position of the log. -/
+theorem C07_logged_iv_shape (s : Nat) (ops : List Op) (r : Bool) (k : Nat)
+    (hk : k < (((World.established s).run ops).dirLog r).length) :
+    ∃ iv, ((((World.established s).run ops).dirLog r)[k]?).map (·.2.2) = some iv ∧
+      iv.length = 12 ∧ iv.take 8 = ivIdentifier r := by
+  refine ⟨isoIv r (k+1), ?_, isoIv_length r (k+1), ?_⟩
+  · rw [C07_nth_iv s ops r k hk]; rfl
+  · unfold isoIv; cases r <;> simp [ivIdentifier]
+
 /-- the exhaustion guard itself: with the send counter at `u32::MAX` the reader produces no
 request and the device's pending response becomes a bare status message; no counter moves. -/
 theorem C07_exhausted_reader (r : Reader) (h : r.encCtr.toNat = 2^32 - 1) :
